@@ -194,7 +194,7 @@ pub fn property(_ctx: &Ctx) -> Property {
             "vertices within +-4000 px (the property's working coordinate range)",
         ],
         parts: vec![part("poly", 200_000, 3_000_000, strategy, check)],
-        min_class_fraction: vec![("partial-coverage-pixel", 0.2), ("edge-starts-above-row0", 0.05), ("aliased", 0.1), ("evenodd", 0.2)],
+        min_class_fraction: vec![("poly", "partial-coverage-pixel", 0.2), ("poly", "edge-starts-above-row0", 0.05), ("poly", "aliased", 0.1), ("poly", "evenodd", 0.2)],
         panic_is_violation: false,
     }
 }
